@@ -359,7 +359,7 @@ def harnesses(tier):
                           bounds=dict(shape=(3,), attribute_kinds=ATT_KINDS, views=len(view_family((3,))))))
         hs.append(Harness('masks (3,) all views', body_masks, params=dict(shape=(3,)), validate=15, weight=5, max_paths=100000, wall_s=3000,
                           bounds=dict(shape=(3,), selection_kinds=SEL_KINDS, views=len(view_family((3,))))))
-    ishapes = [(2, 3)] if tier == 'quick' else [(2, 3), (2, 3, 2), (3, 2, 2)]
+    ishapes = [(2, 3)] if tier == 'quick' else [(2, 3), (3, 2), (2, 2, 2)]      # (3-d shapes with 12 elements did not finish within the budget)
     for shape in ishapes:
         hs.append(Harness('indexed %s' % (shape,), body_indexed, params=dict(shape=shape), validate=15, wall_s=3000, max_paths=500000,
                           bounds=dict(shape=shape, indices='all index tuples, reassigned once')))
